@@ -13,7 +13,8 @@
 (***************************************************************************)
 EXTENDS BVBits, FiniteSets
 
-BoolOps == {"BoolS","BoolV","__eq__","__ne__","ULT","ULE","UGT","UGE","SLT","SLE","SGT","SGE","And","Or","Not"}
+BoolOps == {"BoolS","BoolV","__eq__","__ne__","ULT","ULE","UGT","UGE","SLT","SLE","SGT","SGE","And","Or","Not",
+            "fpLT","fpLEQ","fpGT","fpGEQ","fpEQ","fpNEQ","fpIsNaN","fpIsInf"}
 
 RECURSIVE IsBoolT(_)
 IsBoolT(t) == IF t[1] = "If" THEN IsBoolT(t[4][2]) ELSE t[1] \in BoolOps
@@ -26,6 +27,11 @@ Width(t) ==
     [] op = "BVV" -> Len(t[3])
     [] op \in BoolOps -> 0
     [] op = "Concat" -> FoldLeft(LAMBDA acc, k : acc + Width(k), 0, A)
+    [] op = "FPS" -> t[3][1] + t[3][2]                        \* <<"FPS", name, <<ebits, sbits>>, <<>>>>
+    [] op = "FPV" -> Len(t[3])
+    [] op \in {"fpToFP", "fpToFPUnsigned"} -> t[3][Len(t[3]) - 1] + t[3][Len(t[3])]   \* target sort last in ints
+    [] op \in {"fpToSBV", "fpToUBV"} -> t[3][1]
+    [] op = "fpFP" -> FoldLeft(LAMBDA acc, k : acc + Width(k), 0, A)
     [] op = "Extract" -> t[3][1] - t[3][2] + 1
     [] op \in {"ZeroExt","SignExt"} -> t[3][1] + Width(A[1])
     [] op = "If" -> Width(A[2])
@@ -34,7 +40,7 @@ Width(t) ==
 \* ---- free variables (names) ----
 RECURSIVE FreeVars(_)
 FreeVars(t) ==
-  IF t[1] \in {"BVS","BoolS"} THEN {t[2]}
+  IF t[1] \in {"BVS","BoolS","FPS","StringS"} THEN {t[2]}
   ELSE FoldLeft(LAMBDA acc, k : acc \cup FreeVars(k), {}, t[4])
 
 \* ---- depth: leaves have depth 1 ----
